@@ -166,6 +166,10 @@ async def idle(max_rounds=IDLE_ROUNDS, stop=None):
     return False
 
 
+async def _wait(task):
+    return await task
+
+
 async def bounded(coro, rounds=REF_ROUNDS):
     """Run a coroutine for at most `rounds` loop rounds -> ('ok', value) | ('error', class
     name) | ('pending', None)."""
@@ -191,7 +195,9 @@ class World:
     SMP) and connection 'br' (signalling, SDP, RFCOMM+HFP, AVDTP, AVCTP).  Device 1 is the
     server side of every protocol, device 0 the client side."""
 
-    async def build(self, with_hfp=True):
+    async def build(self, flavour='hfp'):
+        with_hfp = flavour != 'raw'
+        self.flavour = flavour
         from bumble import avctp, avdtp, device, hfp, l2cap, rfcomm, sdp
         from bumble.controller import Controller
         from bumble.core import UUID, PhysicalTransport
@@ -255,7 +261,8 @@ class World:
             p = avctp.Protocol(channel)
             p.register_command_handler(AVCTP_PID, lambda label, payload: p.send_response(label, AVCTP_PID, payload[::-1]))
             self.avctp_servers.append(p)
-        devs[1].create_l2cap_server(l2cap.ClassicChannelSpec(avctp.AVCTP_PSM), on_avctp_channel)
+        if flavour != 'avrcp':
+            devs[1].create_l2cap_server(l2cap.ClassicChannelSpec(avctp.AVCTP_PSM), on_avctp_channel)
 
         for d in devs:
             await d.power_on()
@@ -300,11 +307,29 @@ class World:
         # AVDTP
         self.avdtp_client = await avdtp.Protocol.connect(br[0])
         await idle()
-        # AVCTP
-        ch = await br[0].create_l2cap_channel(spec=l2cap.ClassicChannelSpec(avctp.AVCTP_PSM))
-        self.avctp_client = avctp.Protocol(ch)
+        # AVCTP (raw echo handler) or, in the 'avrcp' flavour, AVRCP on both sides
+        self.avrcp = None
         self.avctp_rx = []
-        self.avctp_client.register_response_handler(AVCTP_PID, lambda label, payload: self.avctp_rx.append((label, payload)))
+        if flavour == 'avrcp':
+            from bumble import avrcp
+            self.avrcp = [avrcp.Protocol(), avrcp.Protocol()]
+            self.avrcp[0].listen(devs[1])
+            await self.avrcp[1].connect(br[0])
+            await idle()
+            self.avrcp_expected = await self.avrcp[1].get_supported_company_ids()
+        else:
+            ch = await br[0].create_l2cap_channel(spec=l2cap.ClassicChannelSpec(avctp.AVCTP_PSM))
+            self.avctp_client = avctp.Protocol(ch)
+            self.avctp_client.register_response_handler(AVCTP_PID, lambda label, payload: self.avctp_rx.append((label, payload)))
+        await idle()
+        # honest data channels through the echo servers: LE credit-based and ERTM
+        self.coc_rx = bytearray()
+        self.coc = await le0.create_l2cap_channel(spec=l2cap.LeCreditBasedChannelSpec(psm=LE_ECHO_PSM))
+        self.coc.sink = self.coc_rx.extend
+        self.ertm_rx = bytearray()
+        self.ertm = await br[0].create_l2cap_channel(
+            spec=l2cap.ClassicChannelSpec(psm=ERTM_ECHO_PSM, mode=l2cap.TransmissionMode.ENHANCED_RETRANSMISSION))
+        self.ertm.sink = self.ertm_rx.extend
         await idle()
         # a raw L2CAP channel to the RFCOMM PSM: device 1 holds an idle multiplexer for it,
         # which the stateful hostile sequences drive with hand-made RFCOMM frames
@@ -312,6 +337,7 @@ class World:
         self.rf_raw.sink = lambda pdu: None
         await idle()
         self.echo_id = 0x40
+        self.mid_excs = []
         self.with_hfp = with_hfp
         return self
 
@@ -332,7 +358,18 @@ class World:
         elif proto == 'avdtp':
             ch = self.avdtp_client.l2cap_channel
         elif proto == 'avctp':
-            ch = self.avctp_client.l2cap_channel
+            ch = (self.avrcp[1].avctp_protocol if self.avrcp else self.avctp_client).l2cap_channel
+        elif proto == 'coc':
+            # LE credit-based channels are looked up on the LE connection
+            if dev == 0:
+                return self.coc
+            h = self.conn['le'][1].handle
+            for c in self.devs[1].l2cap_channel_manager.channels.get(h, {}).values():
+                if getattr(c, 'destination_cid', None) == self.coc.source_cid:
+                    return c
+            raise KeyError('no server-side LE CoC channel')
+        elif proto == 'ertm':
+            ch = self.ertm
         elif proto == 'rfraw':
             ch = self.rf_raw
         else:
@@ -430,6 +467,124 @@ class World:
         await idle(REF_ROUNDS)
         return None if self.avctp_rx[n:] == [(5, b'\x03\x02\x01')] else f'AVCTP -> {self.avctp_rx[n:]}'
 
+    async def _echo_on(self, channel, rx, msg):
+        n = len(rx)
+        try:
+            channel.write(msg)
+        except Exception as e:
+            return f'write raised {type(e).__name__}'
+        await idle(REF_ROUNDS)
+        return None if bytes(rx[n:]) == msg else f'echo service answered {bytes(rx[n:]).hex()} to {msg.hex()}'
+
+    async def ref_coc(self, fresh=False):
+        from bumble import l2cap
+        if fresh:
+            r = await bounded(self.conn['le'][0].create_l2cap_channel(spec=l2cap.LeCreditBasedChannelSpec(psm=LE_ECHO_PSM)))
+            if r[0] != 'ok':
+                return f'LE credit-based channel open -> {r}'
+            self.coc = r[1]
+            self.coc_rx = bytearray()
+            self.coc.sink = self.coc_rx.extend
+        bad = await self._echo_on(self.coc, self.coc_rx, bytes(range(60)))
+        return None if bad is None else f'LE CoC ({"fresh" if fresh else "open"} channel): {bad}'
+
+    async def ref_ertm(self, fresh=False):
+        from bumble import l2cap
+        if fresh:
+            r = await bounded(self.conn['br'][0].create_l2cap_channel(
+                spec=l2cap.ClassicChannelSpec(psm=ERTM_ECHO_PSM, mode=l2cap.TransmissionMode.ENHANCED_RETRANSMISSION)))
+            if r[0] != 'ok':
+                return f'ERTM channel open -> {r}'
+            self.ertm = r[1]
+            self.ertm_rx = bytearray()
+            self.ertm.sink = self.ertm_rx.extend
+        bad = await self._echo_on(self.ertm, self.ertm_rx, bytes(range(40)))
+        return None if bad is None else f'ERTM ({"fresh" if fresh else "open"} channel): {bad}'
+
+    async def ref_avrcp(self):
+        r = await bounded(self.avrcp[1].get_supported_company_ids())
+        return None if r == ('ok', self.avrcp_expected) else f'AVRCP get_supported_company_ids -> {r}'
+
+    # ---- mid-transaction: a genuine request of device 0 with hostile bytes arriving before
+    # the genuine response (the hostile SERVER / hostile bytes between request and response)
+    def start_request(self, name):
+        from bumble import l2cap
+        le0, br0 = self.conn['le'][0], self.conn['br'][0]
+
+        async def open_and_write(connection, spec, payload):
+            ch = await connection.create_l2cap_channel(spec=spec)
+            ch.sink = lambda data: None
+            ch.write(payload)
+            return 'opened'
+
+        async def open_dlc_and_write():
+            dlc = await self.mux.open_dlc(self.rfcomm_echo_channel)
+            dlc.sink = lambda data: None
+            dlc.write(b'hello from the client side of a DLC')
+            return 'opened'
+        if name == 'coc.open':
+            return open_and_write(le0, l2cap.LeCreditBasedChannelSpec(psm=LE_ECHO_PSM), bytes(100))
+        if name == 'classic.open':
+            return open_and_write(br0, l2cap.ClassicChannelSpec(psm=ECHO_PSM), bytes(100))
+        if name == 'ertm.open':
+            return open_and_write(br0, l2cap.ClassicChannelSpec(psm=ERTM_ECHO_PSM, mode=l2cap.TransmissionMode.ENHANCED_RETRANSMISSION), bytes(100))
+        if name == 'att.read':
+            return self.cchar.read_value()
+        if name == 'att.discover':
+            return self.peer.discover_services()
+        if name == 'sdp.search':
+            return self.sdp_client.search_services([self.sdp_uuid])
+        if name == 'sdp.attributes':
+            return self.sdp_client.search_attributes([self.sdp_uuid], [(0, 0xFFFF)])
+        if name == 'avdtp.discover':
+            return self.avdtp_client.discover_remote_endpoints()
+        if name == 'avdtp.capabilities':
+            return self.avdtp_client.get_capabilities(1)
+        if name == 'rfcomm.open_dlc':
+            return open_dlc_and_write()
+        raise KeyError(name)
+
+    async def mid(self, op):
+        """Start the genuine request, pump the loop until the peer has received it, inject the
+        hostile frames at device 0 (they overtake the genuine response), run to idle.  Returns
+        the outcome of the genuine request: ('ok'|'error'|'pending', ...)."""
+        seen0 = len(self.l2cap_seen[1])
+        task = asyncio.ensure_future(self.start_request(op['req']))
+        request = None
+        for _ in range(300):
+            await asyncio.sleep(0)
+            if len(self.l2cap_seen[1]) > seen0:
+                request = self.l2cap_seen[1][-1][2]
+                break
+            if task.done():
+                break
+        ph = {'ID': '00', 'TID': '0000', 'LBL2': '02', 'LBL3': '03', 'SCID': '0000'}
+        if request is not None:
+            if len(request) >= 2:
+                ph['ID'] = bytes([request[1]]).hex()
+            if len(request) >= 3:
+                ph['TID'] = request[1:3].hex()
+            if len(request) >= 1:
+                ph['LBL2'] = bytes([(request[0] & 0xF0) | 0x02]).hex()
+                ph['LBL3'] = bytes([(request[0] & 0xF0) | 0x03]).hex()
+            if len(request) >= 8:
+                ph['SCID'] = request[6:8].hex()
+        for inj in op['inject']:
+            inj = dict(inj)
+            for k, v in ph.items():
+                inj['data'] = inj['data'].replace('{' + k + '}', v)
+            try:
+                self.deliver(inj)
+            except Abort:
+                raise
+            except Exception as e:
+                self.mid_excs.append(type(e).__name__)
+        await idle()
+        r = await bounded(_wait(task), REF_ROUNDS)
+        if r[0] == 'pending' and not task.done():
+            task.cancel()
+        return r
+
     async def ref_pair(self):
         r = await bounded(self.conn['le'][0].pair(), 4000)
         if r != ('ok', None):
@@ -458,7 +613,11 @@ class World:
             elif name == 'avdtp':
                 bad = await self.ref_avdtp()
             elif name == 'avctp':
-                bad = await self.ref_avctp()
+                bad = await (self.ref_avrcp() if self.avrcp else self.ref_avctp())
+            elif name in ('coc', 'coc.fresh'):
+                bad = await self.ref_coc(fresh=name.endswith('fresh'))
+            elif name in ('ertm', 'ertm.fresh'):
+                bad = await self.ref_ertm(fresh=name.endswith('fresh'))
             elif name == 'pair':
                 bad = await self.ref_pair()
             else:
@@ -511,11 +670,11 @@ class World:
             for pb, n in frags:
                 host.on_packet(self.acl(handle, pb, op.get('bc', 0), frame[pos:pos + n]))
                 pos += n
-        elif kind == 'rfc':                    # a protocol-valid RFCOMM frame on the raw channel
+        elif kind == 'rfc':                    # a protocol-valid RFCOMM frame (raw channel, or the honest mux)
             dev = op['dev']
             frame = self.rfc_frame(op)
             handle = self.handle('br', dev)
-            cid = self.dyn_cid('rfraw', dev)
+            cid = self.dyn_cid(op.get('chan', 'rfraw'), dev)
             self.devs[dev].host.on_packet(self.acl(handle, 2, 0, self.l2cap_frame(cid, frame)))
         elif kind == 'at':                     # AT bytes in a well-formed RFCOMM UIH frame
             from bumble import rfcomm
@@ -542,15 +701,20 @@ def _rfc_frame(self, op):
     'd': 'mux' (DLCI 0) or 'echo' (the DLCI of the echo service)."""
     dlci = 0 if op.get('d', 'mux') == 'mux' else (self.rfcomm_echo_channel << 1)
     f = op['f']
+    cr = 0 if op.get('resp') else 1          # responses of a (hostile) responder carry C/R = 0 in the MCC
     if f == 'sabm':
         return rfcomm_frame(0x2F, 1, dlci, 1, b'')
+    if f == 'ua':
+        return rfcomm_frame(0x63, 1, dlci, 1, b'')
+    if f == 'dm':
+        return rfcomm_frame(0x0F, 1, dlci, 1, b'')
     if f == 'disc':
         return rfcomm_frame(0x43, 1, dlci, 1, b'')
     if f == 'pn':
         echo = self.rfcomm_echo_channel << 1
         pn = bytes([op.get('pn_dlci', echo) & 0xFF, op.get('cl', 0xF0), op.get('prio', 7), op.get('ack', 0)]) + \
             struct.pack('<H', op['mfs']) + bytes([op.get('retrans', 0), op['credits'] & 0xFF])
-        return rfcomm_frame(0xEF, 1, 0, 0, bytes([0x20 << 2 | 1 << 1 | 1, len(pn) << 1 | 1]) + pn)
+        return rfcomm_frame(0xEF, 1, 0, 0, bytes([0x20 << 2 | cr << 1 | 1, len(pn) << 1 | 1]) + pn)
     if f == 'msc':
         msc = bytes([dlci << 2 | 3, op.get('signals', 0x8D)])
         return rfcomm_frame(0xEF, 1, 0, 0, bytes([0x38 << 2 | 1 << 1 | 1, len(msc) << 1 | 1]) + msc)
@@ -566,6 +730,10 @@ World.rfc_frame = _rfc_frame
 
 
 def op_len(op):
+    if op['k'] == 'expect':
+        return 0
+    if op['k'] == 'mid':
+        return sum(op_len(i) for i in op['inject'])
     if op['k'] == 'rfc':
         return 16 + len(op.get('data', '')) // 2
     return len(op['data'].replace('{CID}', '0000')) // 2
@@ -574,6 +742,8 @@ def op_len(op):
 def op_entry(op):
     """Stable name of the entry point / channel an op targets (part of the signature)."""
     k = op['k']
+    if k == 'mid':
+        return f"mid-transaction.{op['req']}"
     side = 'server' if op['dev'] == 1 else 'client'
     if k == 'hci':
         return f'Host.on_packet[{_hci_kind(op)}]'
@@ -598,8 +768,9 @@ def _hci_kind(op):
 # ----------------------------------------------------------------------------- seeds
 def world_layout(w):
     return {'dlci': w.client_dlc.dlci,
-            'live_cids': sorted({w.dyn_cid(p, d) for p in ('sdp', 'rfcomm', 'avdtp', 'avctp', 'rfraw') for d in (0, 1)}),
-            'live_handles': sorted({w.handle(c, d) for c in ('le', 'br') for d in (0, 1)})}
+            'live_cids': sorted({w.dyn_cid(p, d) for p in ('sdp', 'rfcomm', 'avdtp', 'avctp', 'rfraw', 'ertm') for d in (0, 1)}),
+            'live_handles': sorted({w.handle(c, d) for c in ('le', 'br') for d in (0, 1)}),
+            'le_handle': w.handle('le', 0)}
 
 
 async def record_seeds():
@@ -621,7 +792,7 @@ async def record_seeds():
         w.devs[i].host.snooper = Snoop(i)
         w.devs[i].host.on('l2cap_pdu', (lambda i: lambda h, c, p: rec['l2'][i].append((h, c, bytes(p))))(i))
     # a second round of every protocol exchange, now recorded
-    await w.reference(['att', 'echo.le', 'echo.br', 'sdp', 'at', 'avdtp', 'avctp'])
+    await w.reference(['att', 'echo.le', 'echo.br', 'sdp', 'at', 'avdtp', 'avctp', 'coc', 'ertm'])
     await bounded(w.peer.discover_services())
     for svc in w.peer.services:
         await bounded(svc.discover_characteristics())
@@ -636,8 +807,9 @@ async def record_seeds():
     chan = {}
     cidmap = [{}, {}]
     for dev in (0, 1):
-        for p in ('sdp', 'rfcomm', 'avdtp', 'avctp'):
+        for p in ('sdp', 'rfcomm', 'avdtp', 'avctp', 'ertm'):
             cidmap[dev][(w.handle('br', dev), w.dyn_cid(p, dev))] = p
+        cidmap[dev][(w.handle('le', dev), w.dyn_cid('coc', dev))] = 'coc'
     for dev in (0, 1):
         for h, c, p in rec['l2'][dev]:
             if (h, c) in cidmap[dev]:
@@ -654,6 +826,20 @@ async def record_seeds():
         chan[f'cid6.le.{dev}'] = ['0103000d100303', '0203000d100303', '03' + '5a' * 16, '04' + 'a5' * 16, '0508',
                                   '06' + '11' * 16, '070102' + '22' * 8, '08' + '33' * 16, '0900f1f1f1f1f1f1',
                                   '0a' + '44' * 16, '0b0d', '0c' + '55' * 64, '0d' + '66' * 16, '0e00']
+    # AVRCP traffic, recorded in a world of the 'avrcp' flavour
+    wa = await World().build('avrcp')
+    av = [[], []]
+    for i in (0, 1):
+        wa.devs[i].host.on('l2cap_pdu', (lambda i: lambda h, c, p: av[i].append((h, c, bytes(p))))(i))
+    await bounded(wa.avrcp[1].get_supported_company_ids())
+    await bounded(wa.avrcp[1].get_supported_events())
+    await idle()
+    for dev in (0, 1):
+        cid = wa.dyn_cid('avctp', dev)
+        chan[f'avrcp.{dev}'] = []
+        for h, c, p in av[dev]:
+            if c == cid and p.hex() not in chan[f'avrcp.{dev}']:
+                chan[f'avrcp.{dev}'].append(p.hex())
     seeds = {'hci': [sorted(set(x.hex() for x in rec['hci'][i])) for i in (0, 1)], 'chan': chan,
              'layout': world_layout(w)}
     for i in (0, 1):
@@ -885,6 +1071,7 @@ class Gen:
         self.dlci = layout['dlci']
         self.live_cids = list(layout['live_cids'])
         self.live_handles = list(layout['live_handles'])
+        self.le_handle = layout.get('le_handle', 1)
 
     # ---- payload builders per channel
     def body(self, n=None):
@@ -977,6 +1164,43 @@ class Gen:
                 b = hdr + bytes([sig, rng.choice([0, 1, 2, 3, 255])]) + self.body(rng.choice([0, 1, 8]))
             else:
                 b = hdr + self.body(rng.choice([0, 1, 8]))
+        elif family == 'coc':
+            # K-frames: SDU length (first segment) + payload, or a continuation segment
+            body = self.body(rng.choice([0, 1, 2, 10, 23, 24, 100, 300]))
+            sdu_len = rng.choice([len(body), len(body), 0, 1, len(body) + 1, 2048, 2049, 65535])
+            b = struct.pack('<H', sdu_len) + body if rng.chance(3, 4) else body
+        elif family == 'ertm':
+            # enhanced control field: I-frame (SAR, ReqSeq, F, TxSeq) or S-frame (S, P, F, ReqSeq)
+            if rng.chance(1, 2):
+                ctrl = rng.below(4) << 14 | rng.below(64) << 8 | rng.below(2) << 7 | rng.below(64) << 1
+                body = self.body(rng.choice([0, 1, 2, 10, 40, 300]))
+                if ctrl >> 14 == 1:
+                    body = struct.pack('<H', rng.choice([len(body), 0, 65535])) + body
+            else:
+                ctrl = rng.below(64) << 8 | rng.below(2) << 7 | rng.below(2) << 4 | rng.below(4) << 2 | 1
+                body = self.body(rng.choice([0, 0, 2]))
+            b = struct.pack('<H', ctrl) + body
+        elif family == 'avrcp':
+            # AVCTP single/start/continue/end packet with the AV/C PID, carrying an AV/C frame
+            ptype = rng.choice([0, 0, 0, 1, 2, 3])
+            hdr = bytes([rng.below(16) << 4 | ptype << 2 | rng.below(2) << 1 | (1 if rng.chance(1, 10) else 0)])
+            if ptype == 1:
+                hdr += bytes([rng.choice([0, 1, 2, 255])])
+            if ptype in (0, 1):
+                hdr += struct.pack('>H', rng.choice([AVCTP_PID, AVCTP_PID, AVCTP_PID, 0x110C, 0xFFFF]))
+            opcode = rng.choice([0x00, 0x00, 0x00, 0x7C, 0x30, 0x31, 0xFF])
+            avc = bytes([rng.choice([0, 1, 3, 9, 0xA, 0xC, 0xD, 0xF, rng.below(256)]), rng.choice([0x48, 0x48, 0xFF, rng.below(256)]), opcode])
+            if opcode == 0x00:
+                params = self.body(rng.choice([0, 1, 2, 4, 8, 20]))
+                plen = len(params) if rng.chance(2, 3) else rng.choice([0, 1, len(params) + 1, 512, 65535])
+                avc += rng.choice([b'\x00\x19\x58', b'\x00\x19\x58', b'\xff\xff\xff']) + \
+                    bytes([rng.choice([0x10, 0x11, 0x12, 0x13, 0x14, 0x15, 0x16, 0x17, 0x20, 0x30, 0x31, 0x40, 0x41, 0x50, 0x60, 0x70, 0x74, rng.below(256)]),
+                           rng.choice([0, 0, 1, 2, 3])]) + struct.pack('>H', plen) + params
+            elif opcode == 0x7C:
+                avc += bytes([rng.below(256), rng.choice([0, 0, 1, 5, 255])]) + self.body(rng.choice([0, 1, 5]))
+            else:
+                avc += self.body(rng.choice([0, 5, 8]))
+            b = hdr + avc
         elif family == 'avctp':
             label = rng.below(16)
             ptype = rng.below(4)
@@ -1001,7 +1225,8 @@ class Gen:
 
     def length_offsets(self, family, b):
         return {'sig': ((2, 2),), 'sdp': ((3, -2), (5, -2), (6, 1)), 'rfcomm': ((2, 1),), 'avdtp': ((2, 1),),
-                'avctp': ((1, 1),), 'att': ((1, 1),), 'smp': ()}.get(family, ())
+                'avctp': ((1, 1),), 'att': ((1, 1),), 'smp': (), 'coc': ((0, 2),), 'ertm': ((2, 2),),
+                'avrcp': ((9, -2), (1, 1))}.get(family, ())
 
     def defuse_signalling(self, b):
         """Signalling requests that are protocol-valid ways of closing or re-configuring an
@@ -1064,7 +1289,10 @@ class Gen:
         h = rng.choice(self.live_handles + [0, 0x0EFF])
         data = self.body(rng.choice([0, 1, 3, 4, 5, 8, 12, 30]))
         if len(data) >= 4 and rng.chance(1, 2):
-            data = struct.pack('<HH', rng.choice([len(data) - 4, 0, 1, 0xFFFF, len(data)]), rng.choice([1, 4, 5, 6, 7, 0x40, 0x41, 0x3A])) + data[4:]
+            cid = rng.choice([1, 4, 5, 6, 7, 0x40, 0x41, 0x3A])
+            if h == self.le_handle and cid >= 0x40:
+                cid = 0x7E          # not the honest credit-based channel (a corrupted K-frame stream is the peer's own loss)
+            data = struct.pack('<HH', rng.choice([len(data) - 4, 0, 1, 0xFFFF, len(data)]), cid) + data[4:]
             data = data[:4] + self.defuse_signalling(data[4:])
         n = len(data) if rng.chance(2, 3) else rng.choice([0, len(data) + 1, 0xFFFF])
         return bytes([0x02]) + struct.pack('<HH', h | rng.below(4) << 12 | rng.below(4) << 14, n) + data, 'class-acl'
@@ -1135,7 +1363,7 @@ class Gen:
             conn = rng.choice(['le', 'le', 'br'])
             dev = rng.below(2)
             if conn == 'le':
-                cid = rng.choice([4, 4, 4, 5, 5, 6, 6, 1, 2, 3, 7, 0x3A, 0x40, 0])
+                cid = rng.choice([4, 4, 4, 5, 5, 6, 6, 1, 2, 3, 7, 0x3A, 0x7E, 0])
             else:
                 cid = rng.choice([1, 1, 1, 7, 7, 4, 5, 6, 2, 3, 0x3F, 0x7F, 0])
             family = {4: 'att', 5: 'sig', 1: 'sig', 6: 'smp', 7: 'smp'}.get(cid, 'other')
@@ -1151,15 +1379,25 @@ class Gen:
                 refs.append('pair')
             return {'target': f'cid{cid}', 'ops': ops, 'refs': refs, 'src': tags[0]}
         if r < 80:
-            proto = rng.choice(['sdp', 'sdp', 'sdp', 'rfcomm', 'rfcomm', 'avdtp', 'avdtp', 'avctp'])
+            proto = rng.choice(['sdp', 'sdp', 'sdp', 'rfcomm', 'rfcomm', 'avdtp', 'avdtp', 'avctp', 'coc', 'ertm', 'avrcp', 'avrcp'])
             dev = rng.choice([1, 1, 0])
+            family, chan, conn = proto, proto, 'br'
+            if proto == 'avrcp':
+                chan = 'avctp'
+            if proto == 'coc':
+                conn = 'le'
             ops, tags = [], []
             for _ in range(nops):
-                b, tag = self.payload_for(f'{proto}.{dev}', proto)
-                ops.append(self.l2cap_op('br', dev, b, proto=proto))
+                b, tag = self.payload_for(f'{proto}.{dev}', family)
+                ops.append(self.l2cap_op(conn, dev, b, proto=chan))
                 tags.append(tag)
-            ref = {'sdp': 'sdp', 'rfcomm': 'at', 'avdtp': 'avdtp', 'avctp': 'avctp'}[proto]
-            case = {'target': proto, 'ops': ops, 'refs': ['conn', ref, 'echo.br'], 'src': tags[0]}
+            # a peer that corrupts its own credit-based / ERTM stream may legitimately lose that
+            # channel: the reference request for those goes through a freshly opened channel
+            ref = {'sdp': 'sdp', 'rfcomm': 'at', 'avdtp': 'avdtp', 'avctp': 'avctp', 'avrcp': 'avctp',
+                   'coc': 'coc.fresh', 'ertm': 'ertm.fresh'}[proto]
+            case = {'target': proto, 'ops': ops, 'refs': ['conn', ref, 'echo.' + conn], 'src': tags[0]}
+            if proto == 'avrcp':
+                case['flavour'] = 'avrcp'
             if proto == 'rfcomm':
                 case['hfp'] = False        # raw DLC sinks: the reference is the byte stream itself
             return case
@@ -1208,7 +1446,7 @@ class Gen:
 
 
 # ----------------------------------------------------------------------------- running cases
-FULL_BATTERY = ['conn', 'att', 'echo.le', 'echo.br', 'sdp', 'at.resync', 'avdtp', 'avctp']
+FULL_BATTERY = ['conn', 'att', 'echo.le', 'echo.br', 'sdp', 'at.resync', 'avdtp', 'avctp', 'coc', 'ertm']
 
 
 async def run_case(w, case):
@@ -1221,10 +1459,26 @@ async def run_case(w, case):
     verdict = None
     n_loop_errors = len(w.loop_errors)
     case_seen0 = (len(w.l2cap_seen[0]), len(w.l2cap_seen[1]))
+    expect_detail = ''
     with Watch(budget) as wt:
         for op in ops:
             try:
-                w.deliver(op)
+                if op['k'] == 'expect':
+                    # credit discipline: frames the peer of device `dev` has received on `cid`
+                    # since the case began must not exceed the credits the hostile side granted
+                    got = [p for (h, c, p) in w.l2cap_seen[1 - op['dev']][case_seen0[1 - op['dev']]:] if c == op['cid']]
+                    if len(got) > op['max']:
+                        verdict = 'reference request failed (credit discipline)'
+                        expect_detail = (f"{len(got)} PDUs sent on CID 0x{op['cid']:04x} with {op['max']} credits granted")
+                    continue
+                if op['k'] == 'mid':
+                    w.mid_excs = []
+                    r = await w.mid(op)
+                    excs.extend(w.mid_excs)
+                    if r[0] == 'pending':
+                        verdict = 'reference request failed (mid-transaction request never completed)'
+                else:
+                    w.deliver(op)
             except Abort as a:
                 verdict = a.kind
             except Exception as e:            # an ordinary exception is allowed by the property
@@ -1249,7 +1503,8 @@ async def run_case(w, case):
     res = {'verdict': verdict, 'exc': excs[0] if excs else 'none', 'excs': excs, 'steps': wt.steps,
            'depth': wt.max_depth, 'bytes': total, 'detail': ''}
     if verdict:
-        res['detail'] = f'{verdict} after {wt.steps} steps (budget {budget}), max depth {wt.max_depth}'
+        res['detail'] = expect_detail or f'{verdict} after {wt.steps} steps (budget {budget}), max depth {wt.max_depth}'
+        res['ref_exc'] = 'none'
         return res
     if 'expect_reject' in case:
         # signalling error reply: the peer of the injected device must have received a
@@ -1347,6 +1602,14 @@ def _canon_impl_at(v):
     return [_canon_impl_at(x) for x in v]
 
 
+def all_strings(alphabet, max_len):
+    """every byte string over the alphabet up to max_len (exhaustive small scope, thorough tier)"""
+    import itertools
+    for n in range(max_len + 1):
+        for t in itertools.product(alphabet, repeat=n):
+            yield bytes(t)
+
+
 def corr_at(ctx, rng):
     from bumble import at
     alphabet = b'(),"  aA1+:;=?\r\n\\' + bytes([0, 0xFF])
@@ -1358,6 +1621,9 @@ def corr_at(ctx, rng):
             cases.append(rng.bytes(n))
         else:
             cases.append(bytes(rng.choice(alphabet) for _ in range(n)))
+    if not ctx.quick():
+        cases.extend(all_strings(b'()," a', 5))          # 6^0 + ... + 6^5 = 9331 strings
+        ctx.extra['exhaustive_at'] = 'all strings over ( ) , " space a up to length 5'
     exprs = [f'(tokenize {coq_bytes(b)}, parse_parameters {coq_bytes(b)})' for b in cases]
     model = yield exprs
     for b, (mt, mp) in zip(cases, model):
@@ -1392,6 +1658,9 @@ def corr_options(ctx, rng):
             if rng.chance(2, 3):
                 b[i] = rng.choice([0, 0, 1, 2, 4, 255])
         cases.append(bytes(b))
+    if not ctx.quick():
+        cases.extend(all_strings(bytes([0, 1, 2, 3, 255]), 5))
+        ctx.extra['exhaustive_options'] = 'all strings over 00 01 02 03 ff up to length 5'
     exprs = [f'decode_options (decode_options_fuel {coq_bytes(b)}) {coq_bytes(b)}' for b in cases]
     model = yield exprs
     for b, m in zip(cases, model):
@@ -1699,6 +1968,9 @@ def corr_sdp(ctx, rng):
              nested_sdp(32), nested_sdp(33), overrun_sdp(2, b'\x00'), b'\x0d\x03\x01\x02\x03', b'\x10\x80', b'\x11\x80\x00']
     for _ in range(ctx.n(700, 9000)):
         cases.append(gen_sdp_element(rng))
+    if not ctx.quick():
+        cases.extend(all_strings(bytes([0x00, 0x01, 0x02, 0x08, 0x09, 0x19, 0x25, 0x28, 0x35, 0x36, 0x3D, 0x45, 0xFF]), 3))
+        ctx.extra['exhaustive_sdp'] = 'all strings over 13 header/size bytes up to length 3'
     exprs = [f'element_from_bytes true sdp_max_nesting {coq_bytes(b)}' for b in cases]
     model = yield exprs
     calls = [0]
@@ -1871,12 +2143,72 @@ def corr_process_tx(ctx, rng):
             ctx.disagree('rfcomm.DLC.process_tx', {'mtu': dlc.mtu, 'buffered': buf, 'tx_credits': credits, 'rx_credits': rx_credits}, repr(mm), repr(impl))
 
 
+def corr_tlv(ctx, rng):
+    """avdtp ServiceCapabilities.parse_capabilities (item construction replaced by a recording
+    stub) and core AdvertisingData.from_bytes."""
+    from bumble import avdtp, core
+
+    def tlv_bytes():
+        r = rng.below(10)
+        if r < 2:
+            return rng.bytes(rng.choice([0, 1, 2, 3, 7, 20]))
+        out = b''
+        for _ in range(rng.below(5)):
+            n = rng.choice([0, 0, 1, 2, 5])
+            lie = rng.choice([n, n, n, 0, n + 1, 255])
+            out += bytes([rng.below(12), lie & 0xFF]) + rng.bytes(n)
+        if rng.chance(1, 4):
+            out = out[:rng.below(len(out) + 1)]
+        return out
+    cases = [b'', b'\x01', b'\x01\x00', b'\x01\x00\x07', b'\x00\x00\x00', b'\x02\x01\x06', b'\x05\x09abc', b'\xff']
+    for _ in range(ctx.n(250, 4000)):
+        cases.append(tlv_bytes())
+    if not ctx.quick():
+        cases.extend(all_strings(bytes([0, 1, 2, 3, 255]), 5))
+        ctx.extra['exhaustive_tlv'] = 'all strings over 00 01 02 03 ff up to length 5'
+    exprs = [f'(parse_capabilities (tlv_fuel {coq_bytes(b)}) {coq_bytes(b)} 0, parse_advertising (tlv_fuel {coq_bytes(b)}) {coq_bytes(b)} 0)'
+             for b in cases]
+    model = yield exprs
+    orig = avdtp.ServiceCapabilities.create
+    seen = []
+    avdtp.ServiceCapabilities.create = staticmethod(lambda cat, data: seen.append([int(cat), bytes(data)]) or None)
+    try:
+        for b, (mc, ma) in zip(cases, model):
+            ctx.count('corr.tlv')
+            del seen[:]
+            try:
+                guarded(len(b), avdtp.ServiceCapabilities.parse_capabilities, b)
+                ic = ['ok', list(seen)]
+            except RealHang as h:
+                _hang_violation(ctx, 'avdtp.parse_capabilities', b, str(h))
+                continue
+            except Exception as e:
+                ic = ['error', type(e).__name__]
+            try:
+                ad = guarded(len(b), core.AdvertisingData.from_bytes, b)
+                ia = [[int(t), bytes(v)] for t, v in ad.ad_structures]
+            except RealHang as h:
+                _hang_violation(ctx, 'core.AdvertisingData.append', b, str(h))
+                continue
+            if mc is None or ma is None:
+                ctx.disagree('tlv model out of fuel', {'bytes': b.hex()}, repr((mc, ma)), repr((ic, ia)))
+                continue
+            mc = mc[1]
+            mcc = ['error', 'IndexError'] if mc[0] == 'inl' else ['ok', [[t, bytes(v)] for t, v in mc[1]]]
+            maa = [[t, bytes(v)] for t, v in ma[1]]
+            ctx.case(('tlv', b), len(b) >= 2, None)
+            if (mcc, maa) != (ic, ia):
+                ctx.disagree('parse_capabilities / AdvertisingData', {'bytes': b.hex()}, repr((mcc, maa)), repr((ic, ia)))
+    finally:
+        avdtp.ServiceCapabilities.create = orig
+
+
 def correspondence(ctx):
     """Each corr_* is a generator: it yields lists of Coq expressions and receives the
     evaluated models.  All expressions of a round are evaluated in one coq_eval call (the
     shards run in parallel)."""
     rng = ctx.rng.fork('correspondence')
-    gens = [f(ctx, rng) for f in (corr_at, corr_options, corr_att, corr_smp, corr_sig, corr_sdp, corr_host, corr_process_tx)]
+    gens = [f(ctx, rng) for f in (corr_at, corr_options, corr_att, corr_smp, corr_sig, corr_sdp, corr_host, corr_process_tx, corr_tlv)]
     pending = []
     for g in gens:
         try:
@@ -1884,7 +2216,7 @@ def correspondence(ctx):
         except StopIteration:
             pass
     requires = ['Model.HostileAt', 'Model.HostileFields', 'Model.HostileSdp', 'Model.HostileHost', 'Model.HostileRfcomm',
-                'Gen.C17Tables']
+                'Model.HostileLoops', 'Gen.C17Tables']
     while pending:
         exprs = [e for _, es in pending for e in es]
         values = ctx.coq_eval(requires, exprs, shard=300)
@@ -2048,6 +2380,16 @@ def stateful_cases(rng, quick=True):
                {'k': 'l2cap', 'conn': 'le', 'dev': 1, 'cid': 'last', 'data': '2800' + (b'0123456789' * 4).hex()},
                {'k': 'l2cap', 'conn': 'le', 'dev': 1, 'cid': 5, 'data': _sig(0x16, 0x23, '5000ffff')}]
         add(f'lecoc-mtu{mtu}-mps{mps}-credits{credits}', 'lecoc-session', ops, ['conn', 'att', 'echo.le'])
+    # credit discipline: valid parameters, few credits, a long echo: never more PDUs than credits
+    for mps, credits, more in [(23, 0, 1), (23, 1, 1), (23, 2, 3), (64, 1, 0), (23, 3, 65535)]:
+        ops = [{'k': 'l2cap', 'conn': 'le', 'dev': 1, 'cid': 5,
+                'data': _sig(0x14, 0x27, le16(LE_ECHO_PSM) + '5000' + le16(512) + le16(mps) + le16(credits))},
+               {'k': 'l2cap', 'conn': 'le', 'dev': 1, 'cid': 'last', 'data': '6400' + bytes(100).hex()},
+               {'k': 'expect', 'dev': 1, 'cid': 0x50, 'max': credits}]
+        if more:
+            ops += [{'k': 'l2cap', 'conn': 'le', 'dev': 1, 'cid': 5, 'data': _sig(0x16, 0x28, '5000' + le16(more))},
+                    {'k': 'expect', 'dev': 1, 'cid': 0x50, 'max': credits + more}]
+        add(f'lecoc-credit-discipline-mps{mps}-credits{credits}+{more}', 'lecoc-session', ops, ['conn', 'att', 'echo.le'])
     # enhanced credit-based (0x17) with the same hostile values, one or two channels
     for mtu, mps, credits in [(0, 0, 1), (1, 1, 65535), (64, 0, 65535), (0, 64, 7), (22, 22, 1), (64, 64, 0), (65535, 65535, 65535)]:
         for cids in ('5100', '51005200'):
@@ -2120,6 +2462,101 @@ def stateful_cases(rng, quick=True):
     return out
 
 
+def mid_cases(rng, quick=True):
+    """A genuine request of device 0 (the Bumble client side) with hostile bytes overtaking the
+    genuine response: the hostile SERVER's answers with hostile negotiated values, and junk in
+    the middle of a transaction.  The request may legitimately end with the hostile answer or
+    an error; it must end, within budget, and fresh requests must then be answered."""
+    out = []
+    le16 = lambda v: struct.pack('<H', v & 0xFFFF).hex()
+
+    def add(name, req, inject, refs):
+        out.append({'name': name, 'target': 'mid', 'src': 'mid-transaction', 'terminal': True, 'refs': refs,
+                    'ops': [{'k': 'mid', 'req': req, 'dev': 0, 'inject': inject}]})
+
+    def le_sig(data):
+        return {'k': 'l2cap', 'conn': 'le', 'dev': 0, 'cid': 5, 'data': data}
+
+    def br_sig(data):
+        return {'k': 'l2cap', 'conn': 'br', 'dev': 0, 'cid': 1, 'data': data}
+    # ---- LE credit-based connection RESPONSE with hostile mtu / mps / credits (client side of D17f)
+    vals = [0, 1, 22, 23, 65535]
+    combos = [(m, p, c) for m in vals for p in vals for c in (0, 1, 65535)]
+    if quick:
+        combos = [x for i, x in enumerate(combos) if x[1] == 0 or x[0] == 0 or i % 5 == 0]
+    for mtu, mps, credits in combos:
+        add(f'coc-response-mtu{mtu}-mps{mps}-credits{credits}', 'coc.open',
+            [le_sig('15{ID}0a00' + '7000' + le16(mtu) + le16(mps) + le16(credits) + '0000'),
+             le_sig(_sig(0x16, 0x41, '{SCID}ffff'))], ['conn', 'att', 'echo.le', 'coc'])
+    for name, data in (('refused', '15{ID}0a00' + '0000' + '1700' + '1700' + '0000' + '0b00'), ('truncated', '15{ID}0300700017'),
+                       ('own-cid', '15{ID}0a00' + '{SCID}' + '1700' + '1700' + '0100' + '0000'), ('zero-cid', '15{ID}0a00' + '0000170017000100' + '0000')):
+        add('coc-response-' + name, 'coc.open', [le_sig(data)], ['conn', 'att', 'echo.le', 'coc'])
+    # ---- classic / ERTM: Connection Response, then Configure Request with hostile options
+    def classic(name, req, options, extra=()):
+        inj = [br_sig('03{ID}0800' + '7100' + '{SCID}' + '0000' + '0000'),
+               br_sig(_sig(0x04, 0x51, '{SCID}0000' + options)),
+               br_sig(_sig(0x05, 0x01, '{SCID}00000000')), br_sig(_sig(0x05, 0x02, '{SCID}00000000')),
+               br_sig(_sig(0x05, 0x03, '{SCID}00000000'))] + list(extra)
+        add(name, req, inj, ['conn', 'echo.br', 'sdp.fresh', 'ertm.fresh'])
+    for mtu in (0, 1, 47, 65535):
+        classic(f'classic-response-mtu{mtu}', 'classic.open', '0102' + le16(mtu))
+    for win, mps in [(0, 0), (1, 0), (0, 10), (63, 1), (255, 65535)]:
+        rfc = '0409' + bytes([3, win, 1]).hex() + le16(2000) + le16(12000) + le16(mps)
+        classic(f'ertm-response-win{win}-mps{mps}', 'ertm.open', '0102' + le16(100) + rfc)
+    classic('ertm-response-basic-mode', 'ertm.open', '0409' + '00' * 9)
+    add('classic-response-refused', 'classic.open', [br_sig('03{ID}0800' + '0000' + '{SCID}' + '0200' + '0000')], ['conn', 'echo.br', 'sdp.fresh'])
+    add('classic-response-pending-forever', 'classic.open', [br_sig('03{ID}0800' + '0000' + '{SCID}' + '0100' + '0200')], ['conn', 'echo.br', 'sdp.fresh'])
+    # ---- ATT: junk and hostile responses between a Read Request and its response
+    def att(data):
+        return {'k': 'l2cap', 'conn': 'le', 'dev': 0, 'cid': 4, 'data': data}
+    for name, frames in (('garbage', ['ff', '', '0b' * 30]), ('error-response', ['010a10000a']), ('error-truncated', ['010a']),
+                         ('wrong-response', ['0d0102', '0300', '09010203', '1101aabbcc']), ('mtu-response-zero', ['030000']),
+                         ('notification-flood', ['1b1000' + '00' * 20] * 5), ('indication', ['1d100001']),
+                         ('request-from-server', ['0a1000', '02ffff', '0401000200']), ('short-read-response', ['0b'])):
+        add('att-read-' + name, 'att.read', [att(f) for f in frames], ['conn', 'att', 'echo.le'])
+    for name, frames in (('length0', ['1100' + '01000500' + '0018']), ('length1', ['1101' + '01']), ('length3', ['1103010005']),
+                         ('backwards', ['1106' + '0500' + '0100' + '0018']), ('end-ffff-repeat', ['1106' + '0100' + 'ffff' + '0018'] * 2),
+                         ('error', ['01100100' + '0a']), ('garbage', ['11', 'ff' * 23])):
+        add('att-discover-' + name, 'att.discover', [att(f) for f in frames], ['conn', 'att', 'echo.le'])
+    # ---- SDP responses
+    def sdpf(data):
+        return {'k': 'l2cap', 'conn': 'br', 'dev': 0, 'proto': 'sdp', 'data': data}
+
+    def sdp_rsp(pid, params):
+        return bytes([pid]).hex() + '{TID}' + struct.pack('>H', len(params) // 2).hex() + params
+    for name, frames in (('counts-lie', [sdp_rsp(3, 'ffff' + 'ffff' + '00')]), ('no-handles-continuation', [sdp_rsp(3, '0001' + '0000' + '020100')] * 3),
+                         ('long-continuation', [sdp_rsp(3, '0001' + '0001' + '00010001' + '10' + 'aa' * 16)]), ('error', [sdp_rsp(1, '0003')]),
+                         ('wrong-type', [sdp_rsp(5, '0002' + '3500' + '00')]), ('truncated', ['03{TID}0009' + '0001']), ('garbage', ['', 'ff' * 8]),
+                         ('bad-tid', ['03ffff0005' + '0000000000'])):
+        add('sdp-search-' + name, 'sdp.search', [sdpf(f) for f in frames], ['conn', 'sdp.fresh', 'echo.br'])
+    deep = nested_sdp(40, b'\x19\x11\x01').hex()
+    over = overrun_sdp(10, bytes(20)).hex()
+    for name, frames in (('byte-count-lie', [sdp_rsp(7, 'ffff' + '3500' + '00')]), ('nested', [sdp_rsp(7, struct.pack('>H', len(deep) // 2).hex() + deep + '00')]),
+                         ('overrun', [sdp_rsp(7, struct.pack('>H', len(over) // 2).hex() + over + '00')]),
+                         ('zero-chunks', [sdp_rsp(7, '0000' + '020100')] * 4), ('odd-attribute-list', [sdp_rsp(7, '0005' + '3503090001' + '00')])):
+        add('sdp-attributes-' + name, 'sdp.attributes', [sdpf(f) for f in frames], ['conn', 'sdp.fresh', 'echo.br'])
+    # ---- AVDTP responses
+    def av(data):
+        return {'k': 'l2cap', 'conn': 'br', 'dev': 0, 'proto': 'avdtp', 'data': data}
+    for name, frames in (('many-endpoints', ['{LBL2}01' + ''.join(bytes([(i % 62 + 1) << 2, 0x08]).hex() for i in range(30))]),
+                         ('odd-length', ['{LBL2}01' + '04']), ('empty', ['{LBL2}01']), ('reject', ['{LBL3}01' + '19']), ('reject-empty', ['{LBL3}01']),
+                         ('wrong-signal', ['{LBL2}02' + '0100']), ('garbage', ['', 'ff', '{LBL2}']), ('seid-zero', ['{LBL2}01' + '0000'])):
+        add('avdtp-discover-' + name, 'avdtp.discover', [av(f) for f in frames], ['conn', 'avdtp', 'echo.br'])
+    for name, frames in (('length-lie', ['{LBL2}02' + '01ff' + '0706']), ('truncated-header', ['{LBL2}02' + '01']), ('codec-short', ['{LBL2}02' + '0100' + '0701' + '00']),
+                         ('many', ['{LBL2}02' + '0100' * 60]), ('reject-empty', ['{LBL3}02'])):
+        add('avdtp-capabilities-' + name, 'avdtp.capabilities', [av(f) for f in frames], ['conn', 'avdtp', 'echo.br'])
+    # ---- RFCOMM: the responder's PN response / UA / DM with hostile values while a DLC is opened
+    for mfs in (0, 1, 5, 32767):
+        for credits in (0, 7):
+            add(f'rfcomm-pn-response-mfs{mfs}-credits{credits}', 'rfcomm.open_dlc',
+                [{'k': 'rfc', 'dev': 0, 'chan': 'rfcomm', 'f': 'pn', 'resp': True, 'mfs': mfs, 'credits': credits},
+                 {'k': 'rfc', 'dev': 0, 'chan': 'rfcomm', 'f': 'ua', 'd': 'echo'},
+                 {'k': 'rfc', 'dev': 0, 'chan': 'rfcomm', 'f': 'uih', 'd': 'echo', 'data': '', 'credits': 7}], ['conn', 'at', 'echo.br'])
+    add('rfcomm-open-dm', 'rfcomm.open_dlc', [{'k': 'rfc', 'dev': 0, 'chan': 'rfcomm', 'f': 'dm', 'd': 'echo'}], ['conn', 'at', 'echo.br'])
+    add('rfcomm-open-ua-before-pn', 'rfcomm.open_dlc', [{'k': 'rfc', 'dev': 0, 'chan': 'rfcomm', 'f': 'ua', 'd': 'echo'}], ['conn', 'at', 'echo.br'])
+    return out
+
+
 def load_corpus():
     out = []
     if os.path.isdir(CORPUS_DIR):
@@ -2133,6 +2570,14 @@ def load_corpus():
                     c['src'] = 'corpus'
                     out.append(c)
     return out
+
+
+def flavour_of(case):
+    """which world a case needs: 'hfp' (HFP on the RFCOMM DLC, raw AVCTP), 'raw' (raw DLC sinks),
+    'avrcp' (HFP + AVRCP on the AVCTP PSM)"""
+    if 'flavour' in case:
+        return case['flavour']
+    return 'hfp' if case.get('hfp', True) else 'raw'
 
 
 def is_terminal(case):
@@ -2153,11 +2598,11 @@ async def build_world(flavour):
     or stall is reported instead of suffered."""
     w = World()
     if flavour in _BUILD_CHECKED:
-        r = await bounded(w.build(with_hfp=flavour), 200000)
+        r = await bounded(w.build(flavour), 200000)
     else:
         try:
             with Watch(40_000_000, 400) as wt:
-                r = await bounded(w.build(with_hfp=flavour), 200000)
+                r = await bounded(w.build(flavour), 200000)
         except Abort as a:
             raise WorldBuildFailed(a.kind)
         if wt.tripped:
@@ -2203,8 +2648,8 @@ async def _segment(cases, start, flavour, sink):
 
 def run_cases(cases, sink):
     """Run the cases grouped by world flavour (with / without HFP on the RFCOMM channel)."""
-    for flavour in (True, False):
-        group = [c for c in cases if c.get('hfp', True) == flavour]
+    for flavour in ('hfp', 'raw', 'avrcp'):
+        group = [c for c in cases if flavour_of(c) == flavour]
         i = 0
         while i < len(group):
             i = asyncio.run(_segment(group, i, flavour, sink))
@@ -2221,7 +2666,7 @@ def replay_sequence(history, case):
 
     async def go():
         from bumble import core
-        w = await build_world(case.get('hfp', True))
+        w = await build_world(flavour_of(case))
         n0 = len(core.UUID.UUIDS)
         res = None
         for c in seq:
@@ -2284,7 +2729,7 @@ def campaign(ctx, cases, label='campaign'):
                 hist = history
         ctx.violation(sig, f"{op_entry(case['ops'][0])} <- {case.get('name', case['src'])}: {res['verdict']}: {res['detail']}"
                            f" (exceptions at injection: {res['excs'][:4]})",
-                      {'hfp': case.get('hfp', True), 'history': hist, 'case': case})
+                      {'flavour': flavour_of(case), 'history': hist, 'case': case})
     ctx.extra.setdefault('campaign', {})[label] = {
         'max_steps_per_injection': stats['max_steps'], 'max_python_depth': stats['max_depth'],
         'max_fraction_of_step_budget': round(stats['max_ratio'], 4),
@@ -2323,9 +2768,10 @@ def run(ctx):
     seeds = asyncio.run(record_seeds())
     ctx.extra['recorded_seed_pdus'] = {k: len(v) for k, v in sorted(seeds['chan'].items())}
     ctx.extra['recorded_hci_packets'] = [len(x) for x in seeds['hci']]
-    cases = load_corpus() + directed_cases() + stateful_cases(ctx.rng.fork('stateful'), ctx.quick())
+    cases = (load_corpus() + directed_cases() + stateful_cases(ctx.rng.fork('stateful'), ctx.quick())
+             + mid_cases(ctx.rng.fork('mid'), ctx.quick()))
     gen = Gen(ctx.rng.fork('campaign'), seeds)
-    for _ in range(ctx.n(1500, 30000)):
+    for _ in range(ctx.n(1300, 30000)):
         cases.append(gen.case())
     campaign(ctx, cases)
     ctx.log('campaign done:', ctx.dist.get('campaign.cases'), 'cases,', len(ctx.violations), 'violations')
@@ -2364,7 +2810,7 @@ def replay(ctx, obj):
     r = obj['replay']
     if r.get('kind') == 'build':
         try:
-            asyncio.run(build_world(True))
+            asyncio.run(build_world('hfp'))
             print('oracle      : holds (the world is set up within its budgets)')
         except WorldBuildFailed as e:
             print('oracle      :', e)
